@@ -9,7 +9,14 @@ def main():
     os.makedirs(lib.EVIDENCE, exist_ok=True)
     os.makedirs(lib.REPLAYS, exist_ok=True)
     lib.write_coqproject()
-    targets = [f[:-2] + '.vo' for f in lib.coq_files()]
+    # build only the directories of the checks registered in MANIFEST.json (+ Common);
+    # anything else is built on demand by its own check
+    import json
+    man = json.load(open(os.path.join(lib.VERIF, 'MANIFEST.json')))
+    claimed = {c['property_id'] for c in man.get('checks', [])}
+    extra = {'C15': ['Pool'], 'C16': ['Pool']}
+    dirs = {'Common'} | claimed | {d for c in claimed for d in extra.get(c, [])}
+    targets = [f[:-2] + '.vo' for f in lib.coq_files() if f.split('/')[1] in dirs]
     ok, log, secs = lib.coq_make(targets, timeout=3000)
     print(f'coq build: {"ok" if ok else "FAILED"} in {secs:.0f}s ({len(targets)} files)')
     if not ok:
